@@ -117,6 +117,11 @@ type hookSummary struct {
 	Merges         []int          `json:"merges"`         // sizes of the mergeValues calls of channel.get, sorted
 	CPDrains       int            `json:"cp_drains"`      // streams concatenated (drained and closed) by checkPointer.convertCheckPoint
 	InputCloses    int            `json:"input_closes"`   // ignored inputs of resumed calls closed by runner.run
+	// closes issued by the run loop that could not be attributed to one of the five functions above (white-box
+	// attribution by function name unavailable: the model side compares totals); Unattributed counts every
+	// engine event (copy / close / merge) attributed by position only
+	UnattributedCloses int `json:"unattributed_closes,omitempty"`
+	Unattributed       int `json:"unattributed,omitempty"`
 	OtherMerges    map[string]int `json:"other_merges,omitempty"`
 	CallbackCopies []int          `json:"callback_copies,omitempty"`
 	OtherCopies    map[string]int `json:"other_copies,omitempty"`
@@ -124,6 +129,78 @@ type hookSummary struct {
 	Parents        int            `json:"copy_parents"`
 	Streams        int            `json:"streams"`
 	Undrained      []string       `json:"undrained,omitempty"` // copy parents / streams neither fully closed nor drained
+}
+
+// ---- white-box attribution of an engine event to the function of the run loop that issued it.
+// The hook reports the callers outside package schema, innermost first. An event of the run loop starts with
+// the packer method (compose.streamReaderPacker.close / copy / merge); it belongs to the innermost of the known
+// functions on the chain. Private helpers between the two (a loop extracted into a function or a closure of the
+// known function, copyItem, mergeValues) are stepped over: plain functions of package compose and methods of the
+// run-loop types. A closure of another function, a method of another type or a frame of another package ends
+// the walk: the event was issued by a handler / a node / a converter, not by the run loop (attrOther).
+// attrUnknown: the chain consists of run-loop frames only and none of them is a known function — the functions
+// have other names than the ones this harness knows.
+const (
+	actResolve      = "(*runner).resolveCompletedTasks"
+	actUpdate       = "(*channelManager).updateValues"
+	actReportValues = "(*dagChannel).reportValues"
+	actReportSkip   = "(*dagChannel).reportSkip"
+	actRun          = "(*runner).run"
+	actDagGet       = "(*dagChannel).get"
+	actPregelGet    = "(*pregelChannel).get"
+
+	attrKnown   = 0
+	attrOther   = 1
+	attrUnknown = 2
+)
+
+var (
+	closeActors = []string{actResolve, actUpdate, actReportValues, actReportSkip, actRun}
+	copyActors  = []string{actResolve}
+	mergeActors = []string{actDagGet, actPregelGet}
+	closureSfx  = regexp.MustCompile(`(\.func\d+|\.\d+|\.gowrap\d+)+$`)
+	runLoopRecv = []string{"(*runner).", "(*channelManager).", "(*dagChannel).", "(*pregelChannel)."}
+)
+
+func attribute(origin, first string, actors []string) (string, int) {
+	frames := strings.Split(origin, "<")
+	if len(frames) == 0 || frames[0] != first {
+		return "", attrOther
+	}
+	methods := 0
+	for _, f := range frames[1:] {
+		if !strings.HasPrefix(f, "compose.") {
+			return "", attrOther
+		}
+		name := strings.TrimPrefix(f, "compose.")
+		base := closureSfx.ReplaceAllString(name, "")
+		for _, a := range actors {
+			if base == a {
+				if a == actRun && methods > 0 {
+					// everything the run loop does is below runner.run: only a close issued by run itself (or by
+					// a plain helper of it) is the close of the ignored input
+					return "", attrUnknown
+				}
+				return a, attrKnown
+			}
+		}
+		if base != name {
+			return "", attrOther // a closure of a function that is not a known one
+		}
+		if strings.HasPrefix(name, "(") {
+			ok := false
+			for _, r := range runLoopRecv {
+				if strings.HasPrefix(name, r) {
+					ok = true
+				}
+			}
+			if !ok {
+				return "", attrOther
+			}
+			methods++
+		}
+	}
+	return "", attrUnknown
 }
 
 func shortOrigin(o string) string {
@@ -147,26 +224,39 @@ func summarise(ev []schema.VerifC19Event) hookSummary {
 	for _, e := range ev {
 		switch e.Kind {
 		case "copy":
+			// a copy made by the run loop: copyItem called from resolveCompletedTasks, directly or through private
+			// helpers of the run loop (attribute); a copy of the engine that cannot be attributed (the functions
+			// were renamed) is counted with them — the engine has no other copy site than the callbacks'
+			actor, kind := attribute(e.Origin, "compose.streamReaderPacker.copy", copyActors)
 			switch {
-			case strings.Contains(e.Origin, "compose.copyItem<compose.(*runner).resolveCompletedTasks"):
-				s.Copies = append(s.Copies, e.N)
 			case strings.Contains(e.Origin, "internal/callbacks.OnWithStreamHandle"):
 				s.CallbackCopies = append(s.CallbackCopies, e.N)
+			case kind == attrKnown && actor == actResolve:
+				s.Copies = append(s.Copies, e.N)
+			case kind == attrUnknown:
+				s.Copies = append(s.Copies, e.N)
+				s.Unattributed++
 			default:
 				s.OtherCopies[shortOrigin(e.Origin)]++
 			}
 		case "close":
+			actor, kind := attribute(e.Origin, "compose.streamReaderPacker.close", closeActors)
 			switch {
-			case strings.HasPrefix(e.Origin, "compose.streamReaderPacker.close<compose.(*runner).resolveCompletedTasks"):
+			case kind == attrKnown && actor == actResolve:
 				s.ResolveCloses++
-			case strings.HasPrefix(e.Origin, "compose.streamReaderPacker.close<compose.(*channelManager).updateValues"):
+			case kind == attrKnown && actor == actUpdate:
 				s.UpdateCloses++
-			case strings.HasPrefix(e.Origin, "compose.streamReaderPacker.close<compose.(*dagChannel).reportValues"):
+			case kind == attrKnown && actor == actReportValues:
 				s.ChanCloses++
-			case strings.HasPrefix(e.Origin, "compose.streamReaderPacker.close<compose.(*dagChannel).reportSkip"):
+			case kind == attrKnown && actor == actReportSkip:
 				s.SkipCloses++
-			case strings.HasPrefix(e.Origin, "compose.streamReaderPacker.close<compose.(*runner).run<"):
+			case kind == attrKnown && actor == actRun:
 				s.InputCloses++
+			case kind == attrUnknown:
+				// a close issued by the run loop from a function this harness does not know (renamed): the model
+				// side then compares the total number of closes instead of the number per origin
+				s.UnattributedCloses++
+				s.Unattributed++
 			default:
 				if strings.Contains(e.Origin, "<compose.convert<compose.(*streamConverter).convert") {
 					s.CPDrains++
@@ -174,10 +264,14 @@ func summarise(ev []schema.VerifC19Event) hookSummary {
 				s.OtherCloses[shortOrigin(e.Origin)]++
 			}
 		case "merge":
-			if strings.HasPrefix(e.Origin, "compose.streamReaderPacker.merge<compose.mergeValues<compose.(*dagChannel).get") ||
-				strings.HasPrefix(e.Origin, "compose.streamReaderPacker.merge<compose.mergeValues<compose.(*pregelChannel).get") {
+			_, kind := attribute(e.Origin, "compose.streamReaderPacker.merge", mergeActors)
+			switch kind {
+			case attrKnown:
 				s.Merges = append(s.Merges, e.N)
-			} else {
+			case attrUnknown:
+				s.Merges = append(s.Merges, e.N)
+				s.Unattributed++
+			default:
 				s.OtherMerges[shortOrigin(e.Origin)]++
 			}
 		case "child_new":
@@ -258,6 +352,13 @@ type Obs struct {
 	SettleMs  int         `json:"-"`
 }
 
+// C19_TIMING=1: where the wall time of the harness goes (stderr, every 200 cases)
+var (
+	timing              = os.Getenv("C19_TIMING") != ""
+	timeRun, timeSettle, timeLoop time.Duration
+	timeCases, timeIters int
+)
+
 const (
 	settleQuiet = 150 * time.Millisecond
 	settleHard  = 10 * time.Second
@@ -272,7 +373,18 @@ func (engine) Run(ci any) lib.Result {
 		base[g.id] = true
 	}
 	schema.VerifC19Start()
+	tRun := time.Now()
 	out := runCase(e)
+	if timing {
+		timeRun += time.Since(tRun)
+		defer func(t time.Time) {
+			timeSettle += time.Since(t)
+			timeCases++
+			if timeCases%200 == 0 {
+				fmt.Fprintf(os.Stderr, "c19 timing: %d cases, run %v, settle+rest %v (settle loop %v, %d polls)\n", timeCases, timeRun, timeSettle, timeLoop, timeIters)
+			}
+		}(time.Now())
+	}
 
 	// settle: poll until every producer is released, no new framework goroutine is left and every
 	// internal stream is drained or closed. A failure verdict is only given once the run is
@@ -283,7 +395,9 @@ func (engine) Run(ci any) lib.Result {
 	var sum hookSummary
 	t0 := time.Now()
 	lastSig, quietSince, settled := "", time.Now(), false
+	pause := 50 * time.Microsecond
 	for {
+		timeIters++
 		blocked, leaked = nil, nil
 		e.mu.Lock()
 		prods := append([]*producer(nil), e.producers...)
@@ -325,12 +439,20 @@ func (engine) Run(ci any) lib.Result {
 		if now.Sub(t0) > settleHard || out.class == "hang" {
 			break
 		}
-		if out.class != "ok" && now.Sub(t0) > 30*time.Millisecond {
+		if out.class != "ok" && now.Sub(t0) > 8*time.Millisecond {
 			break // no verdict is given on a run that did not complete
 		}
-		time.Sleep(2 * time.Millisecond)
+		// most runs are quiet within a fraction of a millisecond: poll quickly at first, then every 2 ms
+		runtime.Gosched()
+		time.Sleep(pause)
+		if pause < 2*time.Millisecond {
+			pause *= 2
+		}
 	}
 	_ = settled
+	if timing {
+		timeLoop += time.Since(t0)
+	}
 	if os.Getenv("C19_DEBUG") != "" {
 		for _, g := range dumpGoroutines() {
 			if !base[g.id] && isFramework(g) {
@@ -778,7 +900,7 @@ func coqCase(c *Case, e *env, sum *hookSummary) (string, bool) {
 		lib.CoqList(cps), lib.CoqNat(sum.ResolveCloses), lib.CoqNat(sum.UpdateCloses), lib.CoqNat(sum.ChanCloses), lib.CoqNat(sum.SkipCloses),
 		lib.CoqList(mgs), lib.CoqNList(fired),
 		lib.CoqNat(c.Handlers), lib.CoqList(sides), lib.CoqList(cbc),
-		lib.CoqNat(sum.CPDrains), lib.CoqNat(sum.InputCloses)), true
+		lib.CoqNat(sum.CPDrains), lib.CoqNat(sum.InputCloses), lib.CoqNat(sum.UnattributedCloses)), true
 }
 
 // passSides: the streaming callback sites of one execution of a passthrough node.
@@ -953,6 +1075,11 @@ func tagsOf(c *Case, e *env, o *Obs) []string {
 	}
 	if c.State {
 		t = append(t, "opt:state-handlers")
+	}
+	if o.Hook.Unattributed > 0 {
+		// engine events attributed by position only: the functions of the run loop carry other names than the
+		// ones the harness knows (0 on the tree the harness was written for)
+		t = append(t, "whitebox:attribution-by-name-unavailable")
 	}
 	sort.Strings(t)
 	return t
